@@ -361,7 +361,8 @@ def transpose2d(op, input):
 
 @register_qbytestensor_op([torch.ops.aten.view, torch.ops.aten._unsafe_view])
 def view(op, input, *shape):
-    if input.axis is None:
+    if input.axis is None and not isinstance(shape[0], torch.dtype):
+        # (view(dtype) reinterprets the bits of the float values, not those of the quantized data)
         # The view is transparent for QTensor with scalar scales
         out_data = op(input._data, *shape)
         return QBytesTensor(input.qtype, None, out_data.size(), out_data.stride(), out_data, input._scale)
